@@ -73,6 +73,7 @@ type verifCronOpts struct {
 	maxMissedHi int64
 	unsetMax    bool // also explore maxMissedSchedules unset (default 5)
 	mayEnd      bool // an expression may have no further match (zero time)
+	sameName    bool // the second JobConfig may share its name with the first, in another namespace
 }
 
 func verifSetupCron(o verifCronOpts) *verifCronEnv {
@@ -108,10 +109,16 @@ func verifSetupCron(o verifCronOpts) *verifCronEnv {
 	}
 	var items []*heap.Item
 	for j := 0; j < P; j++ {
-		v := &verifJC{key: "ns/" + verifKeys[j]}
+		ns, name := "ns", verifKeys[j]
+		if o.sameName && j == 1 && vz.Bool("sameNameOtherNamespace") {
+			// two JobConfigs that share a name in different namespaces are unrelated
+			ns, name = "ns2", verifKeys[0]
+			vz.Cover("same-name-two-namespaces")
+		}
+		v := &verifJC{key: ns + "/" + name}
 		v.jc = &execution.JobConfig{}
-		v.jc.Namespace = "ns"
-		v.jc.Name = verifKeys[j]
+		v.jc.Namespace = ns
+		v.jc.Name = name
 		cs := &execution.CronSchedule{Expression: "x"}
 		if K > 1 {
 			cs = &execution.CronSchedule{Expressions: []string{"x", "y"}}
@@ -261,6 +268,11 @@ func (env *verifCronEnv) verifCheckPass(now time.Time) {
 		if !(v.inHeap && v.inLister) {
 			continue
 		}
+		// the pending priority itself is a due match: it fires, whatever other JobConfigs did in this pass
+		if !v.prio.After(now) {
+			vz.Assert(count >= 1, "C01/L2/due-priority-fires")
+			vz.Cover("due-priority")
+		}
 		capHit := count >= env.maxCount
 		inWin := true
 		if v.hasNBF {
@@ -329,7 +341,7 @@ func VerifH_C01_L2_workMulti() {
 
 // VerifH_C01_L2_work2: two JobConfigs, no completeness witness (safety only).
 func VerifH_C01_L2_work2() {
-	env := verifSetupCron(verifCronOpts{P: 2, K: 1, witness: vz.Thorough(), maxMissedHi: 2})
+	env := verifSetupCron(verifCronOpts{P: 2, K: 1, witness: vz.Thorough(), maxMissedHi: 2, sameName: true})
 	now := vz.Instant("now")
 	env.verifClock(now, 2*(env.maxCount+2)+2)
 	env.worker.Work()
